@@ -146,6 +146,12 @@ def gpkg_pipe_part(prop, tier, v):
         finally:
             vlib.rm(d)
         ls = [x for x in p.stdout.splitlines() if x.startswith("{")]
+        if not ls and "/verif/harness/cmd/drv" in p.stderr.split("texel/")[0][-3000:] and "panic:" in p.stderr:
+            # the harness itself panicked before or outside the code under test: machinery failure, not an observation
+            first = [x for x in p.stderr.splitlines() if x.startswith("panic:")][:1]
+            frames = [x for x in p.stderr.splitlines() if x.startswith("main.") or x.startswith("github.com/pdok/texel")]
+            if frames and frames[0].startswith("main."):
+                raise Broken("gpkg-pipe driver panicked in the harness: %s\n%s" % (first, p.stderr[-1500:]))
         if ls:
             rec = json.loads(ls[-1])
             rec["status"] = "ok"
